@@ -39,6 +39,7 @@ COORDS = {
     "unit_desc": (np.array([2.0, 1.0, 0.0]), np.array([0.0, 1.0, 2.0, 3.0])),
     "unit_asc": (np.array([0.0, 1.0, 2.0]), np.array([0.0, 1.0, 2.0, 3.0])),
     "nonsquare": (np.array([10.0, 8.0, 6.0]), np.array([-1.0, -0.5, 0.0, 0.5])),     # cellsize_x 0.5, cellsize_y 2
+    "xdesc_yasc": (np.array([0.0, 1.5, 3.0]), np.array([9.0, 6.0, 3.0, 0.0])),      # x descending, y ascending, 3 x 1.5 cells
 }
 BOUNDS = {
     "quick": {"raster": [3, 4], "chunkings": 32, "max_targets": 2, "max_distance_cells": [0.4, 1, 1.4, 1.5, 2, 2.5, "extent", "inf"],
@@ -318,6 +319,8 @@ def build(tier):
         HaloSpace(tier, "nonsquare_cells_3x4", SHAPE, ("proximity", "direction"), "nonsquare", "EUCLIDEAN",
                   [0.5, 1.0, 2.0, 2.1, 4.0], 1 if tier == "quick" else 2, ch_stride=2 if tier == "quick" else 1),
         HaloSpace(tier, "manhattan_3x4", SHAPE, ("proximity", "allocation"), "unit_desc", "MANHATTAN", [1.0, 2.0, 2.5], 1 if tier == "quick" else 2,
+                  ch_stride=2 if tier == "quick" else 1),
+        HaloSpace(tier, "xdesc_yasc_cells_3x4", SHAPE, FUNCS, "xdesc_yasc", "EUCLIDEAN", [1.5, 3.0, 4.5], 1 if tier == "quick" else 2,
                   ch_stride=2 if tier == "quick" else 1),
         NanSpace(tier),
         ScheduleSpace(tier),
